@@ -1,18 +1,39 @@
 """C09 -- Retained snapshots are immutable and time travel is stable.
 
-Proof      : coq/Props/C09.v: (a) C09_immutable over Model/Fault.v: once a version is committed, any later sequence
-             of commits (appends, deletes that rewrite manifests into fresh files), failed / interrupted / crashed
-             commits and rollbacks leaves the set of files it references unchanged and all present (write-once files);
-             (b) C09_by_timestamp / C09_delete_current / C09_by_id over Model/Meta.v (proved with C15): lookup by
-             timestamp returns the most recently committed retained snapshot not newer than t (stable sort, non-decreasing
-             timestamps), deleting the current snapshot repoints to the most recently committed survivor; (c) collections
-             delete only unreferenced files (C05's history theorem, re-exported).
-Tie/oracle : random sequential histories on the real library over {append, delete_files, expire_snapshots,
-             delete_snapshot, garbage_collect(0 | large), failed commit}: after EVERY step every retained snapshot is
-             re-read by an independent reader and compared with the content recorded when it was committed; lookup by
-             id, lookup by timestamp (at, between and outside all snapshot timestamps; equal timestamps included) and the
-             repointed current snapshot are compared with an independent reference AND with the Coq model
-             (Meta.v functions evaluated by vm_compute on the same snapshot lists).
+Proof      : coq/Props/C09.v:
+             (a) C09_immutable over Model/Fault.v: once a version is committed, any later sequence of commits (appends, deletes
+                 that rewrite manifests into fresh files), failed / interrupted / crashed commits and rollbacks leaves the set of
+                 files it references unchanged and all present (write-once files);
+             (b) C09_by_timestamp / C09_delete_current / C09_by_id over Model/Meta.v (proved with C15): lookup by timestamp returns
+                 the most recently committed retained snapshot not newer than t (stable sort, non-decreasing timestamps), deleting
+                 the current snapshot repoints to the most recently committed survivor;
+             (c) collections: C09_collect_keeps_retained (C05's history theorem, retained-snapshot half) and, over Model/GCView.v,
+                 C09_retained_content_step / C09_retained_content_stable: the CONTENT a reader gets from a retained snapshot
+                 (manifests of its list, data files of each manifest, body of each data file) exists after every sequential history
+                 of Model/GCHist.v and is left exactly as it was by any further step -- a commit with ANY mix of appended, rewritten
+                 and dropped manifests (append, delete_files, one transaction doing both, with or without an expiry), expiry,
+                 deletion of any snapshot (oldest / intermediate / current), open transactions, planted orphans, file ageing,
+                 collections with any location / grace / clock / fault oracle -- for as long as it stays in the metadata;
+             (d) the manifest lists a collection opens: Gen/GenGCRoots.v is REGENERATED from the loop of GarbageCollector.collect
+                 over metadata.snapshots (translator/gen_gcroots.py, fail closed: the loop that opens lists must iterate exactly the
+                 set that loop fills); C09_collect_roots_every_snapshot (the list of EVERY retained snapshot, for any parents and
+                 operation labels), C09_collect_roots_ignore_lineage, C09_collect_opens_roots (the collector model of C05 opens
+                 exactly the regenerated roots, under every fault oracle).
+Tie/oracle : random and directed sequential histories on the real library over {append, multi-file append, ONE transaction mixing
+             delete_files / append_data / expire_snapshots (recorded under a single operation label), delete_files,
+             expire_snapshots, retention-count pruning, delete_snapshot of the oldest / an intermediate / the parent of the current /
+             the current snapshot (survivors' parents are repointed), garbage_collect(0 | 1 h) with files on either side of the
+             cutoff, failed commit of each of these -- failing cleanly before the pointer write, or with the pointer write LANDED
+             but reported as failed (ambiguous commit on a backend without atomic write failures; interrupt right after the flip)};
+             half of the random histories run a collection after EVERY step; a third run every transaction on ONE reused
+             Transaction object (failure sequences on it: oracle only, the handler tables are C04's model).  After every
+             step and after every collection every retained snapshot is re-read by an independent reader and compared with the
+             content recorded when it was committed; lookup by id, lookup by timestamp (at, between and outside all snapshot
+             timestamps; equal timestamps included) and the repointed current snapshot are compared with an independent reference.
+             Correspondence: the timestamp lookups with Meta.v; EVERY collection of these histories (traced storage, frozen clock)
+             with Model/GC.v gc_run (outcome, deleted set, keep sets, storage calls), the history invariant (hinvb), the content of
+             every retained snapshot before and after the collection (Model/GCView.v on the model's own final store vs the real
+             directory) and the regenerated roots vs the manifest lists the real collector opened.
 """
 from __future__ import annotations
 
@@ -23,17 +44,29 @@ from typing import Any, Dict, List, Optional, Tuple
 from harness.lib import coqbuild, protocol as P
 
 LEVEL = "proof"
-THEOREMS = ["C09_immutable", "C09_by_timestamp", "C09_delete_current", "C09_by_id", "C09_collect_keeps_retained"]
+THEOREMS = ["C09_immutable", "C09_by_timestamp", "C09_delete_current", "C09_by_id", "C09_collect_keeps_retained",
+            "C09_retained_content_step", "C09_retained_content_stable", "C09_collect_roots_every_snapshot",
+            "C09_collect_roots_ignore_lineage", "C09_collect_opens_roots"]
 MANIFEST_ENTRY = {
     "level_text": "Immutability of committed versions under every later sequence of commits, failures and rollbacks proved in Coq "
                   "(C09_immutable, unbounded); time-travel lookups and current-snapshot repointing proved over the metadata model "
                   "(C09_by_timestamp with a stable sort, C09_delete_current, C09_by_id); collections keep every retained snapshot "
-                  "(C09_collect_keeps_retained); random sequential histories on the real library re-read every retained snapshot "
-                  "after every step with an independent reader and compare the lookups with the model and an independent reference",
-    "level_note": "trusted: Coq kernel; files are write-once (fresh names), so an unchanged file set means unchanged content -- the "
-                  "harness checks content (rows) directly; timestamps non-decreasing (DESIGN.md C09 interpretation); model ties for "
-                  "Meta.v and GC.v are those of C15 and C05",
-    "technique": "Coq proofs (immutability invariant; stable-sort lookup) + sequential-history differential check",
+                  "(C09_collect_keeps_retained) and the content a reader gets from a retained snapshot is unchanged by every step of every "
+                  "sequential history -- commits mixing appended / rewritten / dropped manifests, expiries, deletions of any snapshot, "
+                  "collections under any fault oracle (C09_retained_content_step, C09_retained_content_stable, induction over unbounded "
+                  "histories); the manifest lists a collection opens are regenerated from GarbageCollector.collect and proved to be the "
+                  "lists of ALL retained snapshots whatever their parent links and operation labels (C09_collect_roots_every_snapshot, "
+                  "C09_collect_roots_ignore_lineage, C09_collect_opens_roots); random and directed sequential histories on the real "
+                  "library (mixed delete+append(+expire) transactions, deletions of intermediate snapshots, retention pruning, a "
+                  "collection after every step) re-read every retained snapshot after every step and every collection with an "
+                  "independent reader; lookups compared with the model and an independent reference; every collection compared with the "
+                  "collector model, the content model and the regenerated roots",
+    "level_note": "trusted: Coq kernel; translator/gen_gcroots.py, translator/gen_norm.py; files are write-once (fresh names: valid_commit "
+                  "of Model/GCHist.v), so an unchanged file set means unchanged content -- the harness checks content (rows) directly; "
+                  "timestamps non-decreasing (DESIGN.md C09 interpretation); model ties for Meta.v and GC.v are those of C15 and C05 plus "
+                  "the per-collection correspondence of this check; metadata_manager.refresh() is an input of the collector model",
+    "technique": "Coq proofs (immutability invariant; stable-sort lookup; content-stability induction over histories with collections; "
+                 "translator-regenerated root selection) + sequential-history differential check with per-collection model correspondence",
     "design_ref": "DESIGN.md section 5 C09",
 }
 
@@ -64,7 +97,8 @@ def ref_by_timestamp(state: Dict[str, Any], t: int) -> Optional[int]:
 
 
 # Directed histories (op names; "expire_old" = expire everything but the current snapshot): the shapes in which a
-# retained snapshot shares files / manifests with snapshots that are then removed, followed by a collection.
+# retained snapshot shares files / manifests with snapshots that are then removed, or owns manifests that its successors
+# do not list (a transaction that deletes AND appends, a removed intermediate snapshot), followed by a collection.
 DIRECTED = [
     ["append_multi", "append", "delete_files", "expire_old", "collect"],
     ["append_multi", "delete_files", "expire_old", "collect", "append", "collect"],
@@ -72,16 +106,75 @@ DIRECTED = [
     ["append", "append_multi", "delete_files", "delete_snapshot_old", "delete_snapshot_old", "collect"],
     ["append_multi", "delete_files", "append", "delete_snapshot_cur", "collect", "expire_old", "collect"],
     ["append_multi", "failed_commit", "delete_files", "failed_commit", "expire_old", "collect", "append", "collect"],
+    # mixed transactions (one commit that deletes and appends / deletes and expires / appends and expires)
+    ["append", "append_multi", "tx_replace", "collect", "tx_replace", "collect", "delete_snapshot_mid", "collect"],
+    ["append_multi", "tx_mixed", "tx_mixed", "collect", "expire_old", "collect", "tx_mixed", "collect"],
+    ["append", "append", "tx_replace", "delete_snapshot_old", "collect", "tx_replace", "delete_snapshot_cur", "collect"],
+    # snapshot deletions of intermediate snapshots (parents of the survivors are repointed past the removed one)
+    ["append", "delete_files", "append", "delete_snapshot_mid", "collect", "append", "collect"],
+    ["append_multi", "delete_files", "append", "delete_files", "append", "delete_snapshot_mid", "delete_snapshot_mid", "collect"],
+    ["append", "tx_replace", "delete_files", "append", "delete_snapshot_parent", "collect", "delete_snapshot_parent", "collect"],
+    # failure sequences on ONE reused Transaction object (a commit whose pointer write landed although it reported failure,
+    # then further failed commits on the same object), then a collection
+    ["append_multi", "failed_commit", "failed_commit", "failed_commit", "append", "failed_commit", "failed_commit", "failed_commit", "collect"],
+    ["append", "failed_commit", "failed_commit", "tx_replace", "failed_commit", "failed_commit", "failed_commit", "collect", "failed_commit"],
 ]
 
+# weights of the random generator (op name -> weight); "tx_mixed" = ONE transaction with any combination of
+# append_data x k, delete_files x j and expire_snapshots
+WEIGHTS = [("append", 0.16), ("append_multi", 0.10), ("tx_mixed", 0.16), ("delete_files", 0.10), ("expire", 0.10),
+           ("delete_snapshot", 0.16), ("collect", 0.12), ("failed_commit", 0.10)]
+RET_KEY = "datashard.snapshot.retention-count"
+TIMEOUT_MS = 24 * 3600 * 1000
 
-def run_history(ctx, seed: int, length: int, script: Optional[List[str]] = None, backwards: bool = False) -> Tuple[List[str], List[Dict[str, Any]], Dict[str, Any]]:
+
+def _pick(rng, weights) -> str:
+    r = rng.random() * sum(w for _n, w in weights)
+    for n, w in weights:
+        r -= w
+        if r < 0:
+            return n
+    return weights[-1][0]
+
+
+def snapshot_views(root: str, meta: Dict[str, Any]) -> List[Optional[List[Tuple[str, List[str]]]]]:
+    """Per retained snapshot (metadata order): [(manifest key, [data file keys])] read with fastavro only (None = unreadable)."""
+    import io
+    import fastavro
+    out: List[Optional[List[Tuple[str, List[str]]]]] = []
+    for s in meta["snapshots"]:
+        try:
+            view = []
+            with open(os.path.join(root, s["manifest_list"].lstrip("/")), "rb") as f:
+                mans = [m["manifest_path"] for m in fastavro.reader(io.BytesIO(f.read()))]
+            for m in mans:
+                if not m:
+                    continue
+                with open(os.path.join(root, m.lstrip("/")), "rb") as f:
+                    ents = [e["data_file"]["file_path"].lstrip("/") for e in fastavro.reader(io.BytesIO(f.read()))]
+                if any(not os.path.exists(os.path.join(root, e)) for e in ents):
+                    raise FileNotFoundError(m)
+                view.append((m.lstrip("/"), ents))
+            out.append(view)
+        except Exception:   # noqa: BLE001
+            out.append(None)
+    return out
+
+
+def run_history(ctx, seed: int, length: int, script: Optional[List[str]] = None, backwards: bool = False,
+                opts: Optional[Dict[str, Any]] = None, collect_log: Optional[List[Dict[str, Any]]] = None
+                ) -> Tuple[List[str], List[Dict[str, Any]], Dict[str, Any]]:
+    """One sequential history on the real library.  opts: gc_every (a collection with every file old follows EVERY step, and
+    every retained snapshot is re-read after it), retention (the table's retention-count property: commits prune)."""
     import random
+    import time as _time
     import datashard
     import datashard.file_manager as fm
     import datashard.metadata_manager as mm
     import datashard.snapshot_manager as sm
     from datashard.data_structures import Schema
+    from harness.lib import gcsim
+    opts = opts or {}
     rng = random.Random(seed)
     root = os.path.join(ctx.scratch, "c09")
     shutil.rmtree(root, ignore_errors=True)
@@ -98,131 +191,89 @@ def run_history(ctx, seed: int, length: int, script: Optional[List[str]] = None,
     viol: List[str] = []
     lookups: List[Dict[str, Any]] = []
     stats = {"steps": 0, "appends": 0, "deletes": 0, "expires": 0, "delete_snapshots": 0, "collects": 0, "failed_commits": 0,
-             "equal_timestamp_pairs": 0}
+             "equal_timestamp_pairs": 0, "mixed_transactions": 0, "delete_and_append_transactions": 0,
+             "intermediate_snapshot_deletions": 0, "collections_after_a_step": 0, "files_collected": 0,
+             "retained_snapshot_rereads": 0, "failed_commits_whose_pointer_write_landed": 0}
     try:
         t = datashard.create_table(root, Schema(schema_id=1, fields=FIELDS))
+        if opts.get("retention"):
+            new = t.metadata_manager.refresh()
+            new.properties[RET_KEY] = str(opts["retention"])
+            t.metadata_manager.commit(t.metadata_manager.refresh(), new)
         recorded: Dict[int, Tuple[Tuple[str, ...], Tuple[int, ...]]] = {}
         nextv = [0]
-        for step in range(len(script) if script is not None else length):
-            r = rng.random()
-            forced = script[step] if script is not None else None
-            if forced is not None:
-                r = {"append": 0.0, "append_multi": 0.0, "delete_files": 0.45, "expire_old": 0.6, "delete_snapshot_old": 0.7,
-                     "delete_snapshot_cur": 0.7, "collect": 0.85, "failed_commit": 0.95}[forced]
-            if rng.random() < 0.6:
-                clock.ms += rng.choice([0, 0, 1, 5, 1000])       # equal timestamps are frequent on purpose
-            if backwards and rng.random() < 0.35:
-                clock.ms -= rng.choice([1, 7, 2500, 600000])     # the wall clock steps BACK (NTP step, another writer's lagging host)
-            state = P.read_table_independent(root)
-            cur = state["current"]
-            op = "append"
-            try:
-                if r < 0.40 or not state["snapshots"]:
-                    nextv[0] += 1
-                    if forced == "append_multi" or (forced is None and rng.random() < 0.4):
-                        # ONE transaction, several data files: they share a manifest, so a later partial delete rewrites it
-                        op = "append_multi"
-                        with t.new_transaction() as tx:
-                            for k in range(rng.choice([2, 3])):
-                                tx.append_data(records=[{"x": nextv[0] * 10 + k}])
-                            tx.commit()
-                        stats["multi_file_appends"] = stats.get("multi_file_appends", 0) + 1
-                    else:
-                        t.append_records([{"x": nextv[0] * 10}, {"x": nextv[0] * 10 + 1}])
-                    stats["appends"] += 1
-                elif r < 0.52 and cur in state["snapshots"] and state["snapshots"][cur]["files"]:
-                    op = "delete_files"
-                    victim = rng.choice(state["snapshots"][cur]["files"])
-                    with t.new_transaction() as tx:
-                        tx.delete_files([victim if rng.random() < 0.5 else "/" + victim])
-                        tx.commit()
-                    stats["deletes"] += 1
-                elif r < 0.64:
-                    op = "expire"
-                    tss = sorted(s["ts"] for s in state["snapshots"].values())
-                    cutoff = rng.choice(tss + [tss[-1] + 1, tss[0] - 1]) if tss else 0
-                    if forced == "expire_old" and tss:
-                        cutoff = tss[-1] + 1
-                    with t.new_transaction() as tx:
-                        tx.expire_snapshots(cutoff)
-                        tx.commit()
-                    stats["expires"] += 1
-                elif r < 0.78 and state["snapshots"]:
-                    op = "delete_snapshot"
-                    sid = rng.choice(list(state["snapshots"]))
-                    if forced is None and cur in state["snapshots"] and rng.random() < 0.3:
-                        sid = cur
-                    if forced == "delete_snapshot_cur" and cur is not None:
-                        sid = cur
-                    elif forced == "delete_snapshot_old":
-                        olds = [x for x in state["log_order"] if x in state["snapshots"] and x != cur]
-                        sid = olds[0] if olds else sid
-                    t.snapshot_manager.delete_snapshot(sid)
-                    stats["delete_snapshots"] += 1
-                elif r < 0.90:
-                    op = "collect"
-                    for rel in ("data", "metadata/manifests"):
-                        d = os.path.join(root, rel)
-                        for f in os.listdir(d):
-                            os.utime(os.path.join(d, f), (1, 1))          # everything is older than any grace period
-                    t.garbage_collect(grace_period_ms=rng.choice([0, 3_600_000]))
-                    stats["collects"] += 1
-                else:
-                    op = "failed_commit"
-                    real_write = t.storage.write_file
+        shared: List[Any] = []
 
-                    def failing(path: str, content: bytes) -> None:
-                        if path.endswith(P.HINT):
-                            raise OSError("injected pointer-write failure")
-                        return real_write(path, content)
-                    # WHICH operation's commit fails: an append, a file delete, an expiry or a snapshot deletion -- the
-                    # failed operation must leave every retained snapshot (the one it tried to remove included) as it was
-                    which = rng.choice(["append", "delete_files", "expire", "delete_snapshot", "delete_snapshot_cur"])
-                    snaps_now = list(state["snapshots"])
-                    t.storage.write_file = failing
-                    try:
-                        if which == "append" or not snaps_now:
-                            t.append_records([{"x": -7}])
-                        elif which == "delete_files" and cur in state["snapshots"] and state["snapshots"][cur]["files"]:
-                            with t.new_transaction() as tx:
-                                tx.delete_files([state["snapshots"][cur]["files"][0]])
-                                tx.commit()
-                        elif which == "expire":
-                            with t.new_transaction() as tx:
-                                tx.expire_snapshots(max(sn["ts"] for sn in state["snapshots"].values()) + 1)
-                                tx.commit()
-                        elif which == "delete_snapshot_cur" and cur in state["snapshots"]:
-                            t.snapshot_manager.delete_snapshot(cur)
-                        else:
-                            t.snapshot_manager.delete_snapshot(snaps_now[0])
-                        viol.append(f"{which} with a failing pointer write reported success")
-                    except OSError:
-                        pass
-                    finally:
-                        t.storage.write_file = real_write
-                    op = f"failed_commit:{which}"
-                    stats["failed_commits"] += 1
-            except Exception as e:      # noqa: BLE001
-                viol.append(f"step {step} ({op}) raised {type(e).__name__}: {e}"[:300])
-                break
-            stats["steps"] += 1
-            # ---- oracle after the step
+        def new_tx() -> Any:
+            """A fresh Transaction, or -- opts reuse_tx -- the ONE Transaction object this history begins again and again."""
+            if not opts.get("reuse_tx"):
+                return t.new_transaction()
+            if not shared:
+                shared.append(t.new_transaction())
+            return shared[0]
+
+        def retained_middle(state: Dict[str, Any], cur: Any) -> List[int]:
+            order = [x for x in state["log_order"] if x in state["snapshots"]]
+            return [x for x in order[1:] if x != cur]
+
+        def do_collect(step: int, every_file_old: bool) -> bool:
+            """One real collection (frozen clock); False when it raised."""
+            now = float(int(_time.time()))
+            grace = rng.choice([0, 3_600_000])
+            for rel in ("data", "metadata/manifests"):
+                d = os.path.join(root, rel)
+                for f in os.listdir(d):
+                    young = (not every_file_old) and rng.random() < 0.3
+                    ts = now + 100.0 if young else 1.0                 # old = older than any grace period
+                    os.utime(os.path.join(d, f), (ts, ts))
+            rec: Optional[Dict[str, Any]] = None
+            if collect_log is not None and (ctx.tier == "quick" or (seed + 7 * step + stats["collects"]) % 3 == 0):
+                # (thorough: a deterministic third of the collections is recorded for the model; the oracle judges all of them)
+                md = gcsim.IndepReader(root).current_metadata()
+                ids = {s["snapshot_id"]: i + 1 for i, s in enumerate(md["snapshots"])}
+                rec = {"seed": seed, "step": step, "grace": grace, "now_ms": int(now * 1000), "tp": t.table_path,
+                       "snaps": [s.get("manifest_list") or "" for s in md["snapshots"]],
+                       "recs": [(ids[s["snapshot_id"]], ids.get(s.get("parent_snapshot_id")), s.get("operation") or "",
+                                 s.get("manifest_list") or "") for s in md["snapshots"]],
+                       "store": gcsim.store_term(root), "before": gcsim.list_tree(root), "views_before": snapshot_views(root, md)}
+            real = gcsim.run_collect(t, grace, now)
+            stats["collects"] += 1
+            if rec is not None:
+                rec["after"] = gcsim.list_tree(root)
+                rec["views_after"] = snapshot_views(root, gcsim.IndepReader(root).current_metadata())
+                rec["real"] = {k: real[k] for k in ("raised", "exc_type", "exc", "phase", "trace", "keep_sets", "unknown")}
+                list_keys = {l.lstrip("/") for l in rec["snaps"] if l}
+                rec["lists_opened"] = sorted({k for op_, k, _f in real["trace"] if op_ == "O" and k in list_keys})
+                collect_log.append(rec)
+            if real["raised"]:
+                viol.append(f"step {step} (collect) raised {real['exc_type']}: {real['exc']}"[:300])
+                return False
+            st_ = real.get("stats") or {}
+            stats["files_collected"] += sum(v for v in st_.values() if isinstance(v, int))
+            return True
+
+        def judge(step: int, op: str, cur_before: Any) -> bool:
+            """The oracle after a step (or after the collection that follows it); False = stop the history."""
             try:
                 state = P.read_table_independent(root)
             except Exception as e:      # noqa: BLE001
-                viol.append(f"after step {step} ({op}) the table is unreadable: {e!r}"[:300])
-                break
+                try:
+                    _rows, problems = gcsim.IndepReader(root).read_everything()     # WHICH retained snapshot lost WHAT
+                except Exception:   # noqa: BLE001
+                    problems = []
+                viol.append(f"after step {step} ({op}) the table is unreadable: {e!r}; {problems[:2]}"[:420])
+                return False
             if state["missing"]:
                 viol.append(f"after step {step} ({op}) retained snapshots reference missing files: {state['missing'][:3]}")
-                break
+                return False
             for sid in state["snapshots"]:
                 content = snapshot_content(root, state, sid)
+                stats["retained_snapshot_rereads"] += 1
                 if sid not in recorded:
                     recorded[sid] = content
                 elif recorded[sid] != content:
                     viol.append(f"after step {step} ({op}) retained snapshot {sid} changed: {recorded[sid]} -> {content}")
             # lookups
-            lib_state = {s.snapshot_id: s for s in t.snapshot_manager.get_all_snapshots()}
             for sid in state["snapshots"]:
                 got = t.snapshot_by_id(sid)
                 if got is None or got.snapshot_id != sid or got.manifest_list.lstrip("/") not in "".join([state["meta"]["snapshots"][i]["manifest_list"] for i in range(len(state["meta"]["snapshots"])) if state["meta"]["snapshots"][i]["snapshot_id"] == sid]):
@@ -243,11 +294,191 @@ def run_history(ctx, seed: int, length: int, script: Optional[List[str]] = None,
                     viol.append(f"after step {step} time_travel(timestamp={tq}) returned {gid}, the most recently committed retained "
                                 f"snapshot not newer than it is {want} (snapshots {[(s, state['snapshots'][s]['ts']) for s in state['log_order'] if s in state['snapshots']]})")
             stats["equal_timestamp_pairs"] += sum(1 for a, b in zip(tss, tss[1:]) if a == b) + (len(state["snapshots"]) - len(tss))
-            if op == "delete_snapshot" and cur is not None and cur not in state["snapshots"]:
+            if op.startswith("delete_snapshot") and cur_before is not None and cur_before not in state["snapshots"]:
                 survivors = [sid for sid in state["log_order"] if sid in state["snapshots"]]
                 want = survivors[-1] if survivors else None
                 if state["current"] not in (want, None if want is None else want):
                     viol.append(f"after deleting the current snapshot the table points to {state['current']}, most recently committed survivor is {want}")
+            return True
+
+        for step in range(len(script) if script is not None else length):
+            forced = script[step] if script is not None else None
+            # (on one reused Transaction object, failure SEQUENCES are the point: failed commits are three times as frequent)
+            pick = _pick(rng, [(n, w * 3 if n == "failed_commit" else w) for n, w in WEIGHTS] if opts.get("reuse_tx") else WEIGHTS)
+            if rng.random() < 0.6:
+                clock.ms += rng.choice([0, 0, 1, 5, 1000])       # equal timestamps are frequent on purpose
+            if backwards and rng.random() < 0.35:
+                clock.ms -= rng.choice([1, 7, 2500, 600000])     # the wall clock steps BACK (NTP step, another writer's lagging host)
+            state = P.read_table_independent(root)
+            cur = state["current"]
+            cur_files = state["snapshots"][cur]["files"] if cur in state["snapshots"] else []
+            op = forced if forced is not None else pick
+            if not state["snapshots"] and op not in ("append", "append_multi", "collect"):
+                op = "append"
+            if op == "delete_files" and not cur_files:
+                op = "append"
+            try:
+                if op in ("append", "append_multi"):
+                    nextv[0] += 1
+                    if op == "append_multi" or (forced is None and rng.random() < 0.3):
+                        # ONE transaction, several data files: they share a manifest, so a later partial delete rewrites it
+                        op = "append_multi"
+                        with new_tx() as tx:
+                            for k in range(rng.choice([2, 3])):
+                                tx.append_data(records=[{"x": nextv[0] * 10 + k}])
+                            tx.commit()
+                        stats["multi_file_appends"] = stats.get("multi_file_appends", 0) + 1
+                    else:
+                        if opts.get("reuse_tx"):
+                            with new_tx() as tx:
+                                tx.append_data(records=[{"x": nextv[0] * 10}, {"x": nextv[0] * 10 + 1}])
+                                tx.commit()
+                        else:
+                            t.append_records([{"x": nextv[0] * 10}, {"x": nextv[0] * 10 + 1}])
+                    stats["appends"] += 1
+                elif op in ("tx_mixed", "tx_replace"):
+                    # ONE transaction combining file deletions, appends and possibly an expiry: the snapshot it commits is
+                    # recorded with a single operation label although it both drops / rewrites manifests of its parent and adds one
+                    nextv[0] += 1
+                    n_del = min(len(cur_files), rng.choice([0, 1, 1, 2]))
+                    n_app = rng.choice([0, 1, 1, 2])
+                    with_expire = op == "tx_mixed" and rng.random() < 0.3
+                    if op == "tx_replace":
+                        n_del, n_app = max(1, n_del) if cur_files else 0, max(1, n_app)
+                    if n_del + n_app == 0 and not with_expire:
+                        n_app = 1
+                    victims = rng.sample(cur_files, n_del)
+                    acts = [("del", v) for v in victims] + [("app", k) for k in range(n_app)] + ([("exp", 0)] if with_expire else [])
+                    rng.shuffle(acts)
+                    tss = sorted(s["ts"] for s in state["snapshots"].values())
+                    with new_tx() as tx:
+                        for kind, arg in acts:
+                            if kind == "del":
+                                tx.delete_files([arg if rng.random() < 0.5 else "/" + arg])
+                            elif kind == "app":
+                                tx.append_data(records=[{"x": nextv[0] * 10 + arg}])
+                            else:
+                                tx.expire_snapshots(rng.choice(tss + [tss[-1] + 1, tss[0] - 1]) if tss else 0)
+                        tx.commit()
+                    stats["mixed_transactions"] += 1
+                    stats["delete_and_append_transactions"] += 1 if (n_del and n_app) else 0
+                elif op == "delete_files":
+                    victim = rng.choice(cur_files)
+                    with new_tx() as tx:
+                        tx.delete_files([victim if rng.random() < 0.5 else "/" + victim])
+                        tx.commit()
+                    stats["deletes"] += 1
+                elif op in ("expire", "expire_old"):
+                    tss = sorted(s["ts"] for s in state["snapshots"].values())
+                    cutoff = rng.choice(tss + [tss[-1] + 1, tss[0] - 1]) if tss else 0
+                    if op == "expire_old" and tss:
+                        cutoff = tss[-1] + 1
+                    with new_tx() as tx:
+                        tx.expire_snapshots(cutoff)
+                        tx.commit()
+                    stats["expires"] += 1
+                elif op.startswith("delete_snapshot"):
+                    order = [x for x in state["log_order"] if x in state["snapshots"]]
+                    middle = retained_middle(state, cur)
+                    sid = rng.choice(list(state["snapshots"]))
+                    if op == "delete_snapshot":
+                        # which one: any / an intermediate one (its successors are repointed past it) / the current one
+                        w = rng.random()
+                        if w < 0.4 and middle:
+                            sid = rng.choice(middle)
+                        elif w < 0.65 and cur in state["snapshots"]:
+                            sid = cur
+                    elif op == "delete_snapshot_cur" and cur is not None:
+                        sid = cur
+                    elif op == "delete_snapshot_old":
+                        olds = [x for x in order if x != cur]
+                        sid = olds[0] if olds else sid
+                    elif op == "delete_snapshot_mid" and middle:
+                        sid = rng.choice(middle)
+                    elif op == "delete_snapshot_parent" and cur in state["snapshots"] and state["snapshots"][cur]["parent"] in state["snapshots"]:
+                        sid = state["snapshots"][cur]["parent"]
+                    if sid in middle:
+                        stats["intermediate_snapshot_deletions"] += 1
+                    t.snapshot_manager.delete_snapshot(sid)
+                    stats["delete_snapshots"] += 1
+                elif op == "collect":
+                    if not do_collect(step, rng.random() < 0.8):
+                        break
+                else:
+                    op = "failed_commit"
+                    real_write = t.storage.write_file
+
+                    # HOW it fails: cleanly before the pointer write / the write lands but reports an error on a backend whose
+                    # failed writes are not guaranteed invisible (ambiguous commit) / an interrupt right after the pointer flip.
+                    # In the last two the commit IS durable: what it committed is a retained snapshot from then on.
+                    mode = rng.choice(["clean", "clean", "ambiguous", "interrupt"])
+                    from datashard.metadata_manager import AmbiguousCommitError
+
+                    def failing(path: str, content: bytes) -> None:
+                        if path.endswith(P.HINT):
+                            if mode == "clean":
+                                raise OSError("injected pointer-write failure")
+                            real_write(path, content)
+                            if mode == "interrupt":
+                                raise KeyboardInterrupt("injected right after the pointer flip")
+                            raise OSError("injected: the pointer write landed but reported an error")
+                        return real_write(path, content)
+                    backend_cls = type(t.storage)
+                    had_own = "atomic_write_failures" in backend_cls.__dict__
+                    saved_prop = backend_cls.__dict__.get("atomic_write_failures")
+                    if mode == "ambiguous":
+                        backend_cls.atomic_write_failures = property(lambda self: False)
+                    # WHICH operation's commit fails: an append, a file delete, a mixed transaction, an expiry or a snapshot
+                    # deletion -- the failed operation must leave every retained snapshot (the one it tried to remove included) as it was
+                    which = rng.choice(["append", "delete_files", "tx_mixed", "expire", "delete_snapshot", "delete_snapshot_cur"])
+                    snaps_now = list(state["snapshots"])
+                    t.storage.write_file = failing
+                    try:
+                        if which == "append" or not snaps_now:
+                            with new_tx() as tx:
+                                tx.append_data(records=[{"x": -7}])
+                                tx.commit()
+                        elif which == "delete_files" and cur_files:
+                            with new_tx() as tx:
+                                tx.delete_files([cur_files[0]])
+                                tx.commit()
+                        elif which == "tx_mixed" and cur_files:
+                            with new_tx() as tx:
+                                tx.delete_files([rng.choice(cur_files)])
+                                tx.append_data(records=[{"x": -9}])
+                                tx.commit()
+                        elif which == "expire":
+                            with new_tx() as tx:
+                                tx.expire_snapshots(max(sn["ts"] for sn in state["snapshots"].values()) + 1)
+                                tx.commit()
+                        elif which == "delete_snapshot_cur" and cur in state["snapshots"]:
+                            t.snapshot_manager.delete_snapshot(cur)
+                        else:
+                            t.snapshot_manager.delete_snapshot(snaps_now[0])
+                        viol.append(f"{which} with a failing pointer write reported success")
+                    except (OSError, AmbiguousCommitError, KeyboardInterrupt):
+                        pass
+                    finally:
+                        t.storage.write_file = real_write
+                        if mode == "ambiguous":
+                            if had_own:
+                                backend_cls.atomic_write_failures = saved_prop
+                            else:
+                                del backend_cls.atomic_write_failures
+                    op = f"failed_commit:{which}" + ("" if mode == "clean" else "_" + mode)
+                    stats["failed_commits"] += 1
+                    stats["failed_commits_whose_pointer_write_landed"] += 0 if mode == "clean" else 1
+            except Exception as e:      # noqa: BLE001
+                viol.append(f"step {step} ({op}) raised {type(e).__name__}: {e}"[:300])
+                break
+            stats["steps"] += 1
+            if not judge(step, op, cur):
+                break
+            if opts.get("gc_every") and op != "collect":
+                # a collection follows the step; every retained snapshot is re-read again after it
+                stats["collections_after_a_step"] += 1
+                if not do_collect(step, True) or not judge(step, f"collect after {op}", None):
+                    break
     finally:
         mm.datetime, sm.datetime, fm.datetime = saved
     return viol, lookups, stats
@@ -277,42 +508,89 @@ def model_by_timestamp(lookups: List[Dict[str, Any]]) -> List[Dict[str, Any]]:
     return bad
 
 
-def run(ctx) -> None:
-    ctx.rule = ("random sequential histories over {append, delete_files (either path spelling), expire_snapshots, delete_snapshot, "
-                "garbage_collect(0|1h) with every file made old, failed commit} with a scripted clock (equal timestamps frequent); "
-                "every retained snapshot re-read after every step; distinct = (seed, step)")
-    ctx.trusted_base += ["harness/props/c09.py + harness/lib/protocol.py independent reader (json, fastavro, pyarrow)"]
-    ctx.assumptions += ["snapshot timestamps non-decreasing in commit order (DESIGN.md C09 interpretation)"]
-    ctx.proofs(THEOREMS)
-    ctx.allow_axioms([])
+def violation_key(v: str) -> str:
+    """What was violated and after which kind of step (the replay file is named after it)."""
+    import re
+    m = re.match(r"(?:after )?step \d+ \(([a-z_ :]+)\)", v)
+    after = m.group(1).replace("collect after ", "collect-after-").replace(":", "-").replace(" ", "-") if m else ""
+    if "is unreadable" in v or "reference missing files" in v:
+        what = "retained-snapshot-unreadable"
+    elif " changed: " in v:
+        what = "retained-snapshot-changed"
+    elif "time_travel(" in v:
+        what = "by-timestamp"
+    elif "lookup by id" in v:
+        what = "by-id"
+    elif "after deleting the current snapshot" in v:
+        what = "repoint-current"
+    elif "reported success" in v:
+        what = "failed-commit-reported-success"
+    elif " raised " in v:
+        what = "operation-raised"
+    else:
+        what = "other"
+    return (what + (":" + after if after else ""))[:60]
+
+
+def make_jobs(ctx) -> List[Dict[str, Any]]:
     quick = ctx.tier == "quick"
-    nh, length = (14, 14) if quick else (150, 40)
-    all_lookups: List[Dict[str, Any]] = []
-    agg: Dict[str, int] = {}
-    jobs: List[Tuple[int, Optional[List[str]]]] = []
+    nh, length = (24, 14) if quick else (140, 40)
+    jobs: List[Dict[str, Any]] = []
     for di, script in enumerate(DIRECTED):
         for rep in range(1 if quick else 6):
-            jobs.append((1000 * di + rep, script))
-    jobs += [(ctx.rng.randrange(1 << 30), None) for _ in range(nh)]
+            jobs.append({"seed": 1000 * di + rep, "script": script,
+                         "opts": {"gc_every": rep % 2 == 1, "reuse_tx": script.count("failed_commit") >= 3}})
+    for i in range(nh):
+        # half of the random histories are followed by a collection after EVERY step; a quarter prune by retention count
+        jobs.append({"seed": ctx.rng.randrange(1 << 30), "script": None,
+                     "opts": {"gc_every": i % 2 == 0, "retention": [0, 0, 0, 2, 0, 0, 0, 3][i % 8], "reuse_tx": i % 3 == 1}})
     # repointing after deleting the current snapshot, on a clock that steps back: directed
     for rep in range(2 if quick else 10):
-        jobs.append((7000 + rep, ["append", "append", "append_multi", "delete_snapshot_cur", "append", "delete_snapshot_cur", "collect"]))
-        jobs.append((7100 + rep, ["append", "append", "delete_files", "delete_snapshot_cur", "delete_snapshot_cur"]))
-    nback = 0
-    for ji, (seed, script) in enumerate(jobs):
-        backwards = ji % 3 == 2 or seed >= 7000 and seed < 7200          # a third of the histories run on a clock that also steps back
-        nback += 1 if backwards else 0
-        viol, lookups, stats = run_history(ctx, seed, length, script, backwards)
-        ctx.count(stats["steps"], ("hist", seed))
+        jobs.append({"seed": 7000 + rep, "script": ["append", "append", "append_multi", "delete_snapshot_cur", "append", "delete_snapshot_cur", "collect"], "opts": {}})
+        jobs.append({"seed": 7100 + rep, "script": ["append", "append", "delete_files", "delete_snapshot_cur", "delete_snapshot_cur"], "opts": {}})
+    for ji, j in enumerate(jobs):
+        j["length"] = length
+        # a third of the histories run on a clock that also steps back
+        j["backwards"] = ji % 3 == 2 or 7000 <= j["seed"] < 7200
+    return jobs
+
+
+def run(ctx) -> None:
+    ctx.rule = ("random sequential histories over {append, multi-file append, ONE transaction mixing delete_files / append_data / "
+                "expire_snapshots, delete_files (either path spelling), expire_snapshots, retention-count pruning, delete_snapshot of "
+                "the oldest / an intermediate / the parent of the current / the current snapshot, garbage_collect(0|1h) with files on "
+                "either side of the cutoff, failed commit of each of these (clean / pointer write landed but reported failed / interrupt after "
+                "the flip)}, half of them with a collection after EVERY step, a third on one reused Transaction object, with a "
+                "scripted clock (equal timestamps frequent); every retained snapshot re-read after every step and after every "
+                "collection; distinct = (seed, step)")
+    ctx.trusted_base += ["harness/props/c09.py + harness/lib/protocol.py independent reader (json, fastavro, pyarrow)",
+                         "translator/gen_gcroots.py (Python ast -> Gallina for the loop of collect() that selects the manifest lists to open)",
+                         "harness/lib/gcsim.py (directory -> Model/GC.v store; traced storage; frozen clock) as in C05"]
+    ctx.assumptions += ["snapshot timestamps non-decreasing in commit order (DESIGN.md C09 interpretation)",
+                        "file names are fresh (uuid4 collisions excluded): valid_commit of Model/GCHist.v"]
+    ctx.proofs(THEOREMS, gen_files=["GenNorm.v", "GenGCRoots.v"])
+    ctx.allow_axioms([])
+    import logging
+    logging.disable(logging.CRITICAL)
+    all_lookups: List[Dict[str, Any]] = []
+    collect_log: List[Dict[str, Any]] = []
+    agg: Dict[str, int] = {}
+    jobs = make_jobs(ctx)
+    for j in jobs:
+        viol, lookups, stats = run_history(ctx, j["seed"], j["length"], j["script"], j["backwards"], j["opts"], collect_log)
+        ctx.count(stats["steps"], ("hist", j["seed"]))
         for k, v in stats.items():
             agg[k] = agg.get(k, 0) + v
         for v in viol[:3]:
-            ctx.violation("history:" + v.split(" ")[3 if v.startswith("after step") else 0][:24], v,
-                          {"seed": seed, "length": length, "script": script, "backwards": backwards})
+            ctx.violation("history:" + violation_key(v), v,
+                          {"seed": j["seed"], "length": j["length"], "script": j["script"], "backwards": j["backwards"], "opts": j["opts"]})
         all_lookups.extend(lookups)
     ctx.stats["histories"] = len(jobs)
-    ctx.stats["directed_histories"] = len(jobs) - nh
-    ctx.stats["histories_with_clock_stepping_back"] = nback
+    ctx.stats["directed_histories"] = sum(1 for j in jobs if j["script"] is not None)
+    ctx.stats["histories_with_clock_stepping_back"] = sum(1 for j in jobs if j["backwards"])
+    ctx.stats["histories_with_a_collection_after_every_step"] = sum(1 for j in jobs if j["opts"].get("gc_every"))
+    ctx.stats["histories_with_retention_count"] = sum(1 for j in jobs if j["opts"].get("retention"))
+    ctx.stats["histories_on_one_reused_transaction_object"] = sum(1 for j in jobs if j["opts"].get("reuse_tx"))
     ctx.stats.update(agg)
     ctx.stats["timestamp_lookups"] = len(all_lookups)
     if all_lookups:
@@ -320,6 +598,7 @@ def run(ctx) -> None:
     sample = all_lookups if len(all_lookups) <= 1500 else ctx.rng.sample(all_lookups, 1500)
     bad = model_by_timestamp(sample)
     ctx.correspondence("by-timestamp", len(sample), bad)
+    model_collections(ctx, collect_log)
 
 
 def replay(ctx, payload) -> int:
@@ -327,6 +606,67 @@ def replay(ctx, payload) -> int:
     if "seed" not in c:
         print("replay: no concrete case")
         return 2
-    viol, _l, _s = run_history(ctx, c["seed"], c["length"], c.get("script"), bool(c.get("backwards")))
+    import logging
+    logging.disable(logging.CRITICAL)
+    viol, _l, _s = run_history(ctx, c["seed"], c["length"], c.get("script"), bool(c.get("backwards")), c.get("opts") or {})
     print("replay:", "STILL FAILS: " + viol[0] if viol else "passes now")
     return 1 if viol else 0
+
+
+def _unsome(v: Any) -> Any:
+    return v.x if hasattr(v, "x") else v
+
+
+def model_collections(ctx, collect_log: List[Dict[str, Any]]) -> None:
+    """Every recorded collection of the histories through the Coq model: the collector (Model/GC.v gc_run: outcome, deleted
+    set, keep sets, storage calls), the invariant of the history theorems (hinvb), the content of every retained snapshot
+    before and after the collection (Model/GCView.v snap_files, the model's own final store against the real directory),
+    and the regenerated roots (Gen/GenGCRoots.v) against the manifest lists the real collector opened."""
+    from harness.lib import gcsim
+    from harness.lib.coqio import to_coq
+    recs = collect_log
+    cap = 160 if ctx.tier == "quick" else 1000
+    if len(recs) > cap:
+        keep = sorted(ctx.rng.sample(range(len(recs)), cap))
+        recs = [recs[i] for i in keep]
+    ctx.stats["collections_recorded"] = len(collect_log)
+    ctx.stats["collections_compared_with_model"] = len(recs)
+    ctx.stats["collections_on_lineages_with_mixed_or_repointed_parents"] = sum(
+        1 for c in collect_log if any(op == "append" and p is not None for _i, p, op, _l in c["recs"]))
+    if not recs:
+        return
+    exprs = []
+    for c in recs:
+        snaps, tp = to_coq(list(c["snaps"])), to_coq(c["tp"])
+        rr = "[" + "; ".join(f"mkSnap ({i})%Z {'None' if p is None else f'(Some ({p})%Z)'} {to_coq(op)} {to_coq(ml)}" for i, p, op, ml in c["recs"]) + "]"
+        exprs.append(f"let st := {c['store']} in let r := gc_run {tp} ({c['grace']})%Z ({c['now_ms']})%Z ({TIMEOUT_MS})%Z no_faults {snaps} st in "
+                     f"(render r, hinvb {snaps} st, map (snap_files st) {snaps}, map (snap_files (g_store (r_final r))) {snaps}, gc_list_roots {tp} {rr})")
+    try:
+        vals = coqbuild.coq_eval(gcsim.REQ + ["DS.Model.GCHist", "DS.Model.GCView", "DS.Model.SnapRec", "DS.Gen.GenGCRoots"], exprs,
+                                 chunk=gcsim.chunk_for(len(exprs)), timeout=1200)
+    except RuntimeError as e:
+        ctx.proof_problems.append("model evaluation failed (collections of the C09 histories): " + str(e)[:600])
+        return
+
+    def views(v: Any) -> List[Any]:
+        return [None if x is None else [(m, list(ds)) for m, ds in _unsome(x)] for x in v]
+
+    bad_gc, bad_inv, bad_view, bad_roots = [], [], [], []
+    for c, v in zip(recs, vals):
+        where = {"seed": c["seed"], "step": c["step"], "grace": c["grace"]}
+        diffs = gcsim.compare(c["real"], c["before"], c["after"], gcsim.parse_render(v[:6]))
+        if diffs:
+            bad_gc.append(dict(where, diffs=diffs[:4]))
+        if v[6] is not True:
+            bad_inv.append(dict(where, note="the directory written by the real writers does not satisfy hinvb"))
+        mb, ma = views(v[7]), views(v[8])
+        rb = [None if x is None else [(m, list(ds)) for m, ds in x] for x in c["views_before"]]
+        ra = [None if x is None else [(m, list(ds)) for m, ds in x] for x in c["views_after"]]
+        if mb != rb or (not c["real"]["raised"] and ma != ra):
+            bad_view.append(dict(where, before_code=rb, before_model=mb, after_code=ra, after_model=ma))
+        if not c["real"]["raised"] and (sorted(v[9]) != c["lists_opened"] or len(set(v[9])) != len(v[9])):
+            bad_roots.append(dict(where, opened_by_code=c["lists_opened"], roots_generated=sorted(v[9])))
+    ctx.correspondence("gc_run (collections of the C09 histories)", len(recs), bad_gc)
+    ctx.correspondence("hinv (before every collection)", len(recs), bad_inv)
+    ctx.correspondence("snapshot-content (before / after every collection)", len(recs), bad_view)
+    ctx.correspondence("collector-roots (lists opened vs Gen/GenGCRoots.v)", len(recs), bad_roots)
